@@ -336,7 +336,8 @@ func (vm *VM) Run(program *Program, env interface{}) (out interface{}, err error
 					in[i] = reflect.ValueOf(param)
 				}
 			}
-			out := FetchFn(env, call.Name).Call(in)
+			fn := FetchFn(env, call.Name)
+			out := fn.Call(typedNils(fn, in))
 			vm.push(out[0].Interface())
 
 		case OpCallFast:
@@ -361,7 +362,8 @@ func (vm *VM) Run(program *Program, env interface{}) (out interface{}, err error
 					in[i] = reflect.ValueOf(param)
 				}
 			}
-			out := FetchFn(vm.pop(), call.Name).Call(in)
+			fn := FetchFn(vm.pop(), call.Name)
+			out := fn.Call(typedNils(fn, in))
 			vm.push(out[0].Interface())
 
 		case OpMethodNilSafe:
@@ -381,7 +383,7 @@ func (vm *VM) Run(program *Program, env interface{}) (out interface{}, err error
 			if !fn.IsValid() {
 				vm.push(nil)
 			} else {
-				out := fn.Call(in)
+				out := fn.Call(typedNils(fn, in))
 				vm.push(out[0].Interface())
 			}
 
